@@ -1,0 +1,90 @@
+//go:build verif
+
+// Contracts for govc (see /verif/DESIGN.md). Comment-only file: no executable code.
+
+package intconv
+
+//@ property C24 C22 C23
+//@ smt bv (define-fun b_at ((a (Array IDX BYTE)) (o IDX) (i IDX)) BYTE (select a (bvadd o i)))
+//@ smt bv (define-fun be2 ((a (Array IDX BYTE)) (o IDX)) (_ BitVec 16) (concat (b_at a o #x0000000000000000) (b_at a o #x0000000000000001)))
+//@ smt bv (define-fun be3 ((a (Array IDX BYTE)) (o IDX)) (_ BitVec 24) (concat (be2 a o) (b_at a o #x0000000000000002)))
+//@ smt bv (define-fun be4 ((a (Array IDX BYTE)) (o IDX)) (_ BitVec 32) (concat (be3 a o) (b_at a o #x0000000000000003)))
+//@ smt bv (define-fun be5 ((a (Array IDX BYTE)) (o IDX)) (_ BitVec 40) (concat (be4 a o) (b_at a o #x0000000000000004)))
+//@ smt bv (define-fun be6 ((a (Array IDX BYTE)) (o IDX)) (_ BitVec 48) (concat (be5 a o) (b_at a o #x0000000000000005)))
+//@ smt bv (define-fun be7 ((a (Array IDX BYTE)) (o IDX)) (_ BitVec 56) (concat (be6 a o) (b_at a o #x0000000000000006)))
+//@ smt bv (define-fun be8 ((a (Array IDX BYTE)) (o IDX)) (_ BitVec 64) (concat (be7 a o) (b_at a o #x0000000000000007)))
+//@ smt bv (define-fun dec_s64 ((a (Array IDX BYTE)) (o IDX) (n IDX)) W64 (ite (= n #x0000000000000001) ((_ sign_extend 56) (b_at a o #x0000000000000000)) (ite (= n #x0000000000000002) ((_ sign_extend 48) (be2 a o)) (ite (= n #x0000000000000003) ((_ sign_extend 40) (be3 a o)) (ite (= n #x0000000000000004) ((_ sign_extend 32) (be4 a o)) (ite (= n #x0000000000000005) ((_ sign_extend 24) (be5 a o)) (ite (= n #x0000000000000006) ((_ sign_extend 16) (be6 a o)) (ite (= n #x0000000000000007) ((_ sign_extend 8) (be7 a o)) (ite (= n #x0000000000000008) (be8 a o) #x0000000000000000)))))))))
+//@ smt bv (define-fun dec_u64 ((a (Array IDX BYTE)) (o IDX) (n IDX)) W64 (ite (= n #x0000000000000001) ((_ zero_extend 56) (b_at a o #x0000000000000000)) (ite (= n #x0000000000000002) ((_ zero_extend 48) (be2 a o)) (ite (= n #x0000000000000003) ((_ zero_extend 40) (be3 a o)) (ite (= n #x0000000000000004) ((_ zero_extend 32) (be4 a o)) (ite (= n #x0000000000000005) ((_ zero_extend 24) (be5 a o)) (ite (= n #x0000000000000006) ((_ zero_extend 16) (be6 a o)) (ite (= n #x0000000000000007) ((_ zero_extend 8) (be7 a o)) (ite (= n #x0000000000000008) (be8 a o) #x0000000000000000)))))))))
+
+//@ func BytesForZero() (bs)
+//@   arith bv
+//@   ensures len(bs) == 1 && bs[0] == 0 && fresh(bs)
+
+// Int64ToBytes: minimal big-endian two's complement.
+//@ func Int64ToBytes(v) (bs)
+//@   arith bv
+//@   ensures [len] 1 <= len(bs) && len(bs) <= 8
+//@   ensures [value] dec_s64(arr(bs), off(bs), len(bs)) == v
+//@   ensures [minimal] len(bs) == 1 || (!(bs[0] == 0 && bs[1] < 0x80) && !(bs[0] == 0xff && bs[1] >= 0x80))
+//@   ensures [fresh] fresh(bs)
+//@   loop 0: unroll 8
+
+//@ func SafeBytesToInt64(bs) (v, ok)
+//@   arith bv
+//@   pure
+//@   ensures [accept] ok == (len(bs) <= 8)
+//@   ensures [value] ok && len(bs) > 0 ==> v == dec_s64(arr(bs), off(bs), len(bs))
+//@   ensures [empty] len(bs) == 0 ==> v == 0
+//@   ensures [reject] !ok ==> v == 0
+//@   loop 0: unroll 8
+//@   loop 1: unroll 8
+
+//@ func BytesToInt64(bs) (v)
+//@   arith bv
+//@   pure
+//@   requires len(bs) <= 8
+//@   ensures len(bs) > 0 ==> v == dec_s64(arr(bs), off(bs), len(bs))
+//@   ensures len(bs) == 0 ==> v == 0
+
+// Uint64ToBytes: minimal big-endian with a leading zero byte when the top bit is set.
+//@ func Uint64ToBytes(v) (bs)
+//@   arith bv
+//@   ensures [len] 1 <= len(bs) && len(bs) <= 9
+//@   ensures [value8] len(bs) <= 8 ==> dec_u64(arr(bs), off(bs), len(bs)) == v && bs[0] < 0x80
+//@   ensures [value9] len(bs) == 9 ==> bs[0] == 0 && dec_u64(arr(bs), off(bs) + 1, 8) == v && bs[1] >= 0x80
+//@   ensures [minimal] len(bs) == 1 || !(bs[0] == 0 && bs[1] < 0x80)
+//@   ensures [fresh] fresh(bs)
+//@   loop 0: unroll 9
+
+//@ func SafeBytesToUint64(bs) (v, ok)
+//@   arith bv
+//@   pure
+//@   ensures [accept] ok == (len(bs) == 0 || (bs[0] == 0 && len(bs) <= 9) || (bs[0] != 0 && bs[0] < 0x80 && len(bs) <= 8))
+//@   ensures [value0] ok && len(bs) > 0 && bs[0] != 0 ==> v == dec_u64(arr(bs), off(bs), len(bs))
+//@   ensures [value1] ok && len(bs) > 1 && bs[0] == 0 ==> v == dec_u64(arr(bs), off(bs) + 1, len(bs) - 1)
+//@   ensures [zero] ok && (len(bs) == 0 || (len(bs) == 1 && bs[0] == 0)) ==> v == 0
+//@   loop 0: unroll 8
+
+// SizeToBytes: minimal unsigned big-endian (no sign byte).
+//@ func SizeToBytes(v) (bs)
+//@   arith bv
+//@   ensures [len] 1 <= len(bs) && len(bs) <= 8
+//@   ensures [value] dec_u64(arr(bs), off(bs), len(bs)) == v
+//@   ensures [minimal] len(bs) == 1 || bs[0] != 0
+//@   ensures [fresh] fresh(bs)
+//@   loop 0: unroll 8
+
+//@ func SafeBytesToSize64(bs) (v, ok)
+//@   arith bv
+//@   pure
+//@   ensures [accept] ok == (len(bs) <= 8)
+//@   ensures [value] ok && len(bs) > 0 ==> v == dec_u64(arr(bs), off(bs), len(bs))
+//@   ensures [empty] len(bs) == 0 ==> v == 0
+//@   loop 0: unroll 8
+
+//@ func SafeBytesToSize(bs) (v, ok)
+//@   arith bv
+//@   pure
+//@   ensures [accept] ok == (len(bs) == 0 || (len(bs) <= 8 && int64(dec_u64(arr(bs), off(bs), len(bs))) >= 0))
+//@   ensures [value] ok && len(bs) > 0 ==> uint64(v) == dec_u64(arr(bs), off(bs), len(bs))
+//@   ensures [empty] len(bs) == 0 ==> v == 0
